@@ -5,6 +5,18 @@ A codec is named by the same parameter string the Lean driver parses:
       field : L1 | L<n>le | L<n>be (n=2..4) | I | F | F<hh>        (S first; exactly one L*, exactly one I; 3..8 bytes)
       kind  : xor | sum1 | sum<k>le | sum<k>be (k=2..4) | crc32le | crc32be
 
+A member can be REALISED in Python in several ways (fourth, optional part of the string: `;impl=<letters>`, ignored by
+the model except for the canonicalisation of error kinds):
+      s : the class is derived from ANOTHER CONCRETE codec class (the built-in `SerialFrame` for the first such member,
+          then the previously generated `s` class: a chain SerialFrame <- A <- B <- ...), every member overridden — the
+          natural way to write "the serial codec with another start marker / checksum".  The parent classes are
+          instantiated BEFORE the derived class is created and used.
+      e : the length-range rejections of `frame_decode` (declared length below header + footer, beyond the data) are
+          reported with the generic `EParseError.ERR`
+      E : every rejection of `hdr_decode` / `frame_decode` is reported with `EParseError.ERR`, and the rejected result
+          still carries whatever was parsed (fid UNDEF, the declared length) — legal: the interface only says that
+          `err` is not NOERR
+
 Two INDEPENDENT implementations live here:
   * `frame_cls(pstr)`  — class factory: an `ICommFrame` subclass (what a user of nxslib would write and hand to
                          `Parser(frame=cls)` / `ParseRecv(cb, frame=cls)`; these instantiate the class, hence a
@@ -47,7 +59,21 @@ class Params:
         return "sof=%02x;hdr=%s;foot=%s" % (self.sof, ",".join(["S"] + fs), self.foot)
 
 
+def split_impl(s):
+    """(member string without the realisation part, realisation letters)"""
+    parts = s.split(";")
+    impl = ""
+    keep = []
+    for kv in parts:
+        if kv.startswith("impl="):
+            impl = kv[5:]
+        else:
+            keep.append(kv)
+    return ";".join(keep), impl
+
+
 def parse_params(s):
+    s, _ = split_impl(s)
     parts = dict(kv.split("=", 1) for kv in s.split(";"))
     names = parts["hdr"].split(",")
     if names[0] != "S":
@@ -103,12 +129,29 @@ def _crc32_bitwise(data):
     return reg ^ 0xFFFFFFFF
 
 
+_S_CHAIN = []      # the classes realised as subclasses of concrete codecs, in creation order
+
+
 @functools.lru_cache(maxsize=None)
 def frame_cls(pstr):
     from nxslib.proto.iframe import DParseFrame, DParseHdr, EParseError, EParseId, ICommFrame
+    from nxslib.proto.serialframe import SerialFrame
     P = parse_params(pstr)
+    _, impl = split_impl(pstr)
     HL, FL, SOF = P.hdr_len, P.foot_len, P.sof
     order = "big" if P.foot_be else "little"
+    E_HDR = EParseError.ERR if "E" in impl else EParseError.HDR
+    E_LEN = EParseError.ERR if ("e" in impl or "E" in impl) else EParseError.FOOT
+    E_FOOT = EParseError.ERR if "E" in impl else EParseError.FOOT
+    CARRY = "E" in impl
+    if "s" in impl:
+        base = _S_CHAIN[-1] if _S_CHAIN else SerialFrame
+        # the parents are in use before the derived codec class exists
+        SerialFrame()
+        for c in _S_CHAIN:
+            c()
+    else:
+        base = ICommFrame
 
     def check(data):
         if P.foot_kind == "xor":
@@ -123,9 +166,10 @@ def frame_cls(pstr):
             return (s % (1 << (8 * FL))).to_bytes(FL, order)
         return _crc32_bitwise(data).to_bytes(4, order)
 
-    class FamFrame(ICommFrame):
+    class FamFrame(base):
         """custom frame codec generated from a parameter string"""
         params = pstr
+        parent = base
 
         def __init__(self):
             super().__init__()
@@ -152,12 +196,12 @@ def frame_cls(pstr):
 
         def hdr_decode(self, data):
             if data is None:
-                return DParseHdr(err=EParseError.HDR)
+                return DParseHdr(err=E_HDR)
             if len(data) < HL:
-                return DParseHdr(err=EParseError.HDR)
+                return DParseHdr(err=E_HDR)
             data = data[:HL]
             if data[0] != SOF:
-                return DParseHdr(err=EParseError.HDR)
+                return DParseHdr(err=E_HDR)
             off = 1
             flen = 0
             _id = 0
@@ -173,7 +217,7 @@ def frame_cls(pstr):
             try:
                 fid = EParseId(_id)
             except ValueError:
-                return DParseHdr(err=EParseError.HDR)
+                return DParseHdr(flen=flen, err=E_HDR) if CARRY else DParseHdr(err=E_HDR)
             return DParseHdr(fid=fid, flen=flen)
 
         def foot_validate(self, data):
@@ -186,9 +230,9 @@ def frame_cls(pstr):
             if hdr.err is not EParseError.NOERR:
                 return DParseFrame(err=hdr.err)
             if hdr.flen < HL + FL or hdr.flen > len(data):
-                return DParseFrame(err=EParseError.FOOT)
+                return DParseFrame(err=E_LEN)
             if self.foot_validate(data[:hdr.flen]) is False:
-                return DParseFrame(err=EParseError.FOOT)
+                return DParseFrame(fid=hdr.fid, data=data[HL:hdr.flen - FL], err=E_FOOT) if CARRY else DParseFrame(err=E_FOOT)
             return DParseFrame(fid=hdr.fid, data=data[HL:hdr.flen - FL])
 
         def frame_create(self, fid, data):
@@ -209,7 +253,23 @@ def frame_cls(pstr):
             return bytes(out) + check(bytes(out))
 
     FamFrame.__name__ = "FamFrame_" + "".join(c if c.isalnum() else "_" for c in pstr)
+    if "s" in impl:
+        _S_CHAIN.append(FamFrame)
     return FamFrame
+
+
+def realisation(pstr):
+    """how the member is realised as a Python class (for the replay files)"""
+    _, impl = split_impl(pstr)
+    cls = frame_cls(pstr)
+    out = []
+    if "s" in impl:
+        out.append("class derived from the concrete codec class " + cls.parent.__name__ + " (instantiated before), every member overridden")
+    if "E" in impl:
+        out.append("every rejection reported as EParseError.ERR, rejected results carry the parsed fields")
+    elif "e" in impl:
+        out.append("length-range rejections of frame_decode reported as EParseError.ERR")
+    return "; ".join(out) or "class derived from ICommFrame, rejections reported as HDR / FOOT"
 
 
 # ---------------------------------------------------------------------------------------------------------
@@ -342,3 +402,137 @@ class SerialRef:
 
     def decode_at(self, data, i):
         return self.c.decode_at(data, i)
+
+
+# ---------------------------------------------------------------------------------------------------------
+# a device whose wire side is the REAL ParseRecv(cb, frame=cls)
+# ---------------------------------------------------------------------------------------------------------
+def pr_device_class():
+    """RefDevice's state machine and answer policies (harness/refdev.py), with every byte on the wire produced and
+    consumed by nxslib's own device-side parser configured with the custom codec — built like DummyDev's callbacks:
+    `recv_handle` dispatches the written bytes to the callbacks, the answers come from `frame_cmninfo_encode`,
+    `frame_chinfo_encode`, `frame_ack_encode`, `frame_stream_encode`.  (DummyDev itself constructs `ParseRecv(cb)`
+    and cannot be given a codec.)"""
+    import refdev
+    from nxslib.proto.iparse import DParseStreamData
+    from nxslib.proto.iparserecv import ParseRecvCb
+    from nxslib.proto.parserecv import ParseRecv
+    import streamglue as sg
+
+    class _Obj:
+        pass
+
+    class PRDevice(refdev.RefDevice):
+        frame_cls = None      # set by the factory
+
+        def __init__(self, *a, **kw):
+            super().__init__(*a, **kw)
+            cb = ParseRecvCb(cmninfo=lambda d: self.handle(refdev.CMNINFO, bytes(d)),
+                             chinfo=lambda d: self.handle(refdev.CHINFO, bytes(d)),
+                             enable=lambda d: self.handle(refdev.ENABLE, bytes(d)),
+                             div=lambda d: self.handle(refdev.DIV, bytes(d)),
+                             start=lambda d: self.handle(refdev.START, bytes(d)))
+            self.pr = ParseRecv(cb, frame=self.frame_cls) if self.frame_cls else ParseRecv(cb)
+            self.wire_problems = []      # frames of the real encoders that are not the codec's framing of the NxScope payload
+            self.rejected = 0
+
+        # consumed bytes: the real dispatcher
+        def on_write(self, data):
+            try:
+                self.pr.recv_handle(bytes(data))
+            except AssertionError:
+                self.rejected += 1       # a request of the wrong size: RefDevice ignores it, ParseRecv asserts
+
+        # produced bytes: the real encoders
+        def _send(self, fid, payload):
+            f = None
+            try:
+                if fid == refdev.ACK and len(payload) == 4:
+                    f = self.pr.frame_ack_encode(struct.unpack("<i", payload)[0])
+                elif fid == refdev.CMNINFO and len(payload) == 3:
+                    d = _Obj()
+                    d.data = _Obj()
+                    d.data.chmax, d.data.flags, d.data.rxpadding = payload[0], payload[1], payload[2]
+                    f = self.pr.frame_cmninfo_encode(d)
+                elif fid == refdev.CHINFO and len(payload) >= 5:
+                    c = _Obj()
+                    c.data = _Obj()
+                    c.data.en, c.data._type, c.data.vdim, c.data.div, c.data.mlen = (bool(payload[0]), payload[1], payload[2],
+                                                                                      payload[3], payload[4])
+                    c.data.name = payload[5:].decode("utf-8")
+                    f = self.pr.frame_chinfo_encode(c)
+            except Exception as e:  # noqa: BLE001
+                self.wire_problems.append((fid, bytes(payload), "raised " + type(e).__name__))
+                return
+            if f is None:
+                f = self.pr._frame.frame_create(fid, payload)       # answers outside the regular shapes (fault policies)
+            want = self.codec.create(fid, payload)
+            if bytes(f) != want:
+                self.wire_problems.append((fid, bytes(payload), bytes(f)))
+            self.rx += f
+
+        def stream_tick(self):
+            if not self.started:
+                return
+            samples = []
+            body = bytearray([0])
+            for i, ch in enumerate(self.chans):
+                if not ch["en"]:
+                    continue
+                raw = self.sample_bytes(ch, self.stream_cntr)
+                meta = tuple((self.stream_cntr + k) & 0xFF for k in range(ch["mlen"]))
+                if not raw and not meta:
+                    continue      # nxslib's encoder leaves out samples that carry neither data nor metadata (C15)
+                body.append(i)
+                body += raw
+                body += bytes(meta)
+                samples.append(DParseStreamData(i, ch["type"] & 0x1F, ch["vdim"], ch["mlen"],
+                                                self.sample_values(ch, self.stream_cntr), self.meta_values(ch, meta)))
+            self.stream_cntr += 1
+            if len(body) <= 1:
+                return
+            try:
+                f = self.pr.frame_stream_encode(samples)
+            except Exception as e:  # noqa: BLE001
+                self.wire_problems.append((refdev.STREAM, bytes(body), "raised " + type(e).__name__ + ": " + str(e)[:60]))
+                return
+            want = self.codec.create(refdev.STREAM, bytes(body))
+            if f is None or bytes(f) != want:
+                self.wire_problems.append((refdev.STREAM, bytes(body), None if f is None else bytes(f)))
+            if f is not None:
+                self.rx += f
+
+        @staticmethod
+        def meta_values(ch, meta):
+            """the metadata bytes as the values `struct.pack(msfmt_get(mlen), *meta)` expects"""
+            n = ch["mlen"]
+            if n in sg.META_SINGLE:
+                return (int.from_bytes(bytes(meta), "little"),)
+            return tuple(meta)
+
+        @staticmethod
+        def sample_values(ch, cntr):
+            """the values whose NxScope encoding is RefDevice.sample_bytes(ch, cntr)"""
+            t = ch["type"] & 0x1F
+            code, size, frac = sg.STD[t]
+            if code == "":
+                return ()
+            if code == "s":
+                return ((b"s%d" % cntr + bytes(ch["vdim"]))[:ch["vdim"]].decode("latin-1"),)
+            out = []
+            for k in range(ch["vdim"]):
+                if code in "fd":
+                    out.append(float(cntr + k))
+                else:
+                    raw = (cntr + k) % (1 << (8 * size - 1))
+                    out.append(raw / (1 << frac) if frac is not None else raw)
+            return tuple(out)
+
+    return PRDevice
+
+
+def pr_device_factory(pstr):
+    """a RefDevice-compatible constructor whose wire side is ParseRecv(cb, frame=<class of pstr>) (pstr None: built-in)"""
+    base = pr_device_class()
+    cls = frame_cls(pstr) if pstr else None
+    return type("PRDevice_" + ("serial" if pstr is None else "custom"), (base,), {"frame_cls": cls})
